@@ -12,8 +12,10 @@ import (
 var PropertyTagResolver TagResolver = propertyTokenResolver
 
 func propertyTokenResolver(in string) (string, error) {
-	split := strings.SplitN(in, "#", 2)
-	filename, property := split[0], split[1]
+	filename, property, ok := strings.Cut(in, "#")
+	if !ok {
+		return "", fmt.Errorf("property tag should be in format 'file#property', got: '%v'", in)
+	}
 	file, err := os.Open(filename)
 	if err != nil {
 		return "", fmt.Errorf("cannot open file: '%v'", filename)
